@@ -69,7 +69,18 @@ func oracleInstants(c *Case) CaseResult {
 		res.Skipped = "instant window"
 		return res
 	}
-	rng, path := runQuery(eng, st, cfg, c.Query, c.Window)
+	rcfg := cfg
+	if c.ID%3 != 0 && c.Window.Start >= 0 {
+		// the window's ends carry fractions of a millisecond (time.Now()-style arguments)
+		// (the start's larger than the end's: in nanoseconds the window is shorter than in milliseconds)
+		rcfg.EndFrac = time.Duration((c.ID*91)%900) * time.Microsecond
+		rcfg.StartFrac = rcfg.EndFrac + time.Duration(1+(c.ID*37)%99)*time.Microsecond
+		if n := (c.Window.End - c.Window.Start) / c.Window.Step; n >= 10 && c.ID%2 == 0 {
+			// ... of at most one batch of steps, every other time
+			c.Window.End = c.Window.Start + int64(c.ID%10)*c.Window.Step
+		}
+	}
+	rng, path := runQuery(eng, st, rcfg, c.Query, c.Window)
 	res.Path = path
 	if rng.Err == "create" {
 		res.Skipped = "rejected at creation"
